@@ -9,7 +9,7 @@ import numpy as np
 
 from .. import common, gen
 from ..common import q as Q
-from .c12 import make_cell
+from .c12 import atom_map, make_cell
 
 TOL = 1e-9
 PI = 3.14159265358979323846
@@ -259,7 +259,7 @@ def main(run):
         "1e-9*scale); oracle = dense canonical covariance from the supercell force constants. Thermal displacements: crystals x "
         "meshes (<= 27 points) x supercells (diagonal and non-symmetric) x force-constant scale {1, 1e-4, 1e-6} x frequency windows (incl. additivity of adjacent windows) x projection directions x T sweep "
         "including T <= 1 K; oracle = independent hbar(1/2+n)/omega sum, symmetry, PSD, diagonal, CIF convention. "
-        "API sequences on one Phonopy instance: generate_displacements(temperature) -> {masses, symmetrize_force_constants, symmetrize_force_constants_by_space_group, set_force_constants_zero_with_radius, new force constants, nac_params} -> generate again; after every step the RandomDisplacements object in use and the generated (seeded) displacements are compared with a fresh Phonopy object in the current state and with the dense oracle. "
+        "Description invariance: part of the sampler cases and 2 (thorough 4) extra cases per run use relabelled lattice vectors (gen.UNIMODULAR, at least one left-handed): sampler oracle on the relabelled supercell, Cartesian covariance per atom pair and mean-square displacement matrices equal between descriptions. API sequences on one Phonopy instance: generate_displacements(temperature) -> {masses, symmetrize_force_constants, symmetrize_force_constants_by_space_group, set_force_constants_zero_with_radius, new force constants, nac_params} -> generate again; after every step the RandomDisplacements object in use and the generated (seeded) displacements are compared with a fresh Phonopy object in the current state and with the dense oracle. "
         "Non-trivial = supercell larger than the primitive cell and at least one unmasked mode.")
     run.cov["trusted_base"] = [
         "Lean 4.33 kernel; Mathlib v4.33; axioms per theorem in coverage.theorems",
@@ -301,6 +301,11 @@ def main(run):
         ns = len(cell) * int(round(abs(np.linalg.det(smat))))
         if ns > max_ns or ns < 2:
             continue
+        relabel = None
+        if made % 4 in (1, 2):  # the whole oracle and correspondence on a relabelled description; made % 4 == 1: left-handed
+            relabel = rng.choice(["swap12", "negate3", "invert"]) if made % 4 == 1 else rng.choice(["shear", "cyclic"])
+            cell, _, smapf_ = gen.relabelled_cell(cell, gen.UNIMODULAR[relabel])
+            smat = smapf_(smat)
         ulabel, ulen, uen, factor = UNITSYS[made % 3]
         mode = ["quantum", "classical"][(made // 3) % 2]  # every unit system meets both statistics within 6 cases
         try:
@@ -326,7 +331,8 @@ def main(run):
         has_pairs = nij > 0
         if want_pairs != has_pairs:
             run.count("rd: smat class differs from expectation")
-        info0 = dict(cell=name, smat=np.array(smat).tolist(), units=ulabel, factor=float(factor), dist_func=mode, cutoff=cutoff, T=T)
+        info0 = dict(cell=name, smat=np.array(smat).tolist(), relabelling=relabel, signed_cell_volume=float(np.linalg.det(cell.cell)),
+                     units=ulabel, factor=float(factor), dist_func=mode, cutoff=cutoff, T=T)
         info = dict(info0, n_ii=nii, n_ij=nij)
         npa, nsat = len(ph.primitive), len(ph.supercell)
         N = nsat // npa
@@ -360,6 +366,7 @@ def main(run):
         run.case(("rd", name, np.array(smat).tolist(), ulabel, mode, cutoff, T), nontrivial=nontrivial)
         run.count("rd %s" % ("with conjugate pairs" if has_pairs else "self-conjugate points only"))
         run.count("rd supercell matrix %s" % ("non-symmetric" if (np.array(smat) != np.array(smat).T).any() else "symmetric"))
+        run.count("rd description: %s" % ("as tabulated" if relabel is None else "relabelled (%s, %s-handed)" % (relabel, "left" if np.linalg.det(cell.cell) < 0 else "right")))
         run.count("rd %s, %s" % (mode, ulabel))
         run.count("rd T=%g" % T)
         run.count("rd cutoff=%s" % cutoff)
@@ -492,6 +499,62 @@ def main(run):
         if hyp > 1e-8:
             run.broke("correspondence", "hypothesis of cov_eq_canonical fails numerically (%.3g)" % hyp, info)
 
+    # =========================================================== description invariance (relabelled, also left-handed, lattice vectors)
+    det_minus = ["swap12", "negate3", "invert"]
+    rl_keys = [rng.choice(det_minus), rng.choice(["shear", "cyclic"] + det_minus)] + ([rng.choice(list(gen.UNIMODULAR))] * 2 if thorough else [])
+    for ir_, key in enumerate(rl_keys):
+        name = rng.choice(["cscl", "nacl_prim", "hcp", "mono_P", "zincblende_prim", "triclinic"])
+        cell = make_cell(name)
+        smat = rng.choice([np.diag([2, 2, 1]), np.diag([2, 1, 2]), np.diag([3, 1, 1]), np.array([[2, 1, 0], [0, 2, 0], [0, 0, 1]]), np.diag([2, 2, 2])])
+        if len(cell) * int(round(abs(np.linalg.det(smat)))) > 12:
+            smat = np.diag([2, 1, 1])
+        M_ = np.array(gen.UNIMODULAR[key])
+        cell2, qmap, smapf = gen.relabelled_cell(cell, M_)
+        phA = Phonopy(cell, supercell_matrix=smat, primitive_matrix="P", log_level=0)
+        phB = Phonopy(cell2, supercell_matrix=smapf(smat), primitive_matrix="P", log_level=0)
+        for p_ in (phA, phB):
+            p_.force_constants = gen.pair_fc(p_.supercell, 4.5)  # central pair potential: the same physical model
+        mode = ["quantum", "classical"][ir_ % 2]
+        T = rng.choice([50.0, 300.0, 800.0])
+        info = dict(cell=name, smat=np.array(smat).tolist(), relabelling=key, det=int(round(np.linalg.det(M_))), dist_func=mode, T=T,
+                    signed_volume_relabelled=float(phB.primitive.volume))
+        tag = "description-dependence" + ("-left-handed" if info["det"] < 0 else "")
+        run.case(("relabel", name, np.array(smat).tolist(), key, mode, T), nontrivial=True)
+        run.count("relabelled description: %s (det %+d)" % (key, info["det"]))
+        covs = []
+        for p_ in (phA, phB):
+            p_.init_random_displacements(dist_func=mode, cutoff_frequency=0.05)
+            A_ = linmap(p_.random_displacements, T)
+            covs.append(A_ @ A_.T)
+        # sampler oracle on the relabelled supercell
+        C, rank, fsc = dense_oracle(phB, T, 0.05, mode)
+        scale = max(np.abs(C).max(), 1e-300)
+        if np.abs(fsc - 0.05).min() > 1e-6:
+            run.count("oracle-relabelled-covariance", section="oracle")
+            if np.abs(covs[1] - C).max() > 1e-8 * scale:
+                run.violation("RandomDisplacements.run", "relabelled-description" + ("-left-handed" if info["det"] < 0 else ""),
+                              "covariance of the sampler on a relabelled supercell differs from the canonical covariance by %.3g (scale %.3g)" % (
+                                  np.abs(covs[1] - C).max(), scale), info)
+            # covariance per atom pair (Cartesian), atoms mapped by position
+            pm_ = atom_map(phA.supercell, phB.supercell)
+            idx = np.array([[3 * k_ + a_ for a_ in range(3)] for k_ in pm_]).ravel()
+            run.count("oracle-relabelled-vs-original-covariance", section="oracle")
+            if np.abs(covs[1][np.ix_(idx, idx)] - covs[0]).max() > 1e-8 * scale:
+                run.violation("RandomDisplacements.run", tag, "Cartesian displacement covariance between the same atom pairs differs between two descriptions of the "
+                              "same supercell by %.3g (scale %.3g)" % (np.abs(covs[1][np.ix_(idx, idx)] - covs[0]).max(), scale), info)
+        # thermal displacement matrices (Gamma-centred mesh with equal odd numbers: the same set of q-points in both descriptions)
+        temps = [0.0, 100.0, 700.0]
+        Us = []
+        for p_ in (phA, phB):
+            p_.run_mesh([3, 3, 3], with_eigenvectors=True, is_mesh_symmetry=False, is_gamma_center=True)
+            p_.run_thermal_displacement_matrices(temperatures=temps, freq_min=0.05)
+            Us.append(p_.thermal_displacement_matrices.thermal_displacement_matrices.copy())
+        pp_ = atom_map(phA.primitive, phB.primitive)
+        run.count("oracle-relabelled-vs-original-thermal-displacement-matrices", section="oracle")
+        if np.abs(Us[1][:, pp_] - Us[0]).max() > 1e-9 * max(np.abs(Us[0]).max(), 1e-300):
+            run.violation("ThermalDisplacementMatrices.run", tag, "Cartesian mean-square displacement matrices of the same atoms differ between two descriptions of "
+                          "the same crystal by %.3g (scale %.3g)" % (np.abs(Us[1][:, pp_] - Us[0]).max(), np.abs(Us[0]).max()), info)
+
     # =========================================================== API sequences on ONE Phonopy instance
     # generate at T -> mutate the state (masses / force constants in place / new force constants / NAC) -> generate again:
     # every generation must be the canonical one of the CURRENT state (reference: a fresh Phonopy object in that state)
@@ -585,6 +648,10 @@ def main(run):
         fmin = rng.choice([1e-3, 0.5, 2.0]) * fs
         fmax = rng.choice([None, None, 8.0 * fs])
         temps = [0.0, rng.choice([0.2, 0.5, 0.9]), 1.0, rng.choice([1.5, 3.0]), rng.choice([10.0, 50.0]), 300.0]
+        if fcscale < 1e-5:
+            # amplitudes grow like T / fc-scale; the implementation asserts |Im U| < 1e-10 ABSOLUTE, which rounding noise of very
+            # large U would trip: keep the soft-lattice cases at low temperatures (they exist for the T <= 1 K range)
+            temps = temps[:4] + [5.0, 10.0]
         if use_iter:  # the iterator form of the mesh must give the same numbers
             ph.init_mesh(mesh, with_eigenvectors=True, is_mesh_symmetry=False, is_gamma_center=gamma, use_iter_mesh=True)
             run.count("td through IterMesh")
@@ -622,7 +689,7 @@ def main(run):
         # adjacent (open) windows add up when no sampled frequency sits on the common edge
         fhi = float(fmax) if fmax is not None else float(fr.max() * 1.1 + 1.0)
         inside = np.sort(fr[(fr > fmin) & (fr < fhi)])
-        if len(inside) >= 2:
+        if len(inside) >= 2 and fcscale >= 1e-5:
             k_ = rng.randrange(len(inside) - 1)
             if inside[k_ + 1] - inside[k_] > 1e-6 * max(1.0, abs(inside[k_])):
                 fmid = float((inside[k_] + inside[k_ + 1]) / 2)
